@@ -55,7 +55,7 @@ theorem work_force {jo : JobObj} {kt : Time} {F0 : Int} {s : Sys} (h : KState jo
     exact h.lbPods p (by rw [← e_pods]; exact hp) f this
   have hclk0 : F0 ≤ sp.clock := Int.le_trans h.lbKill hle
   obtain ⟨s6, rj5, M, h6, hfr6, hpods6, hevs6, hM, hk5, hs5, hlb5⟩ :=
-    syncJobTasks_force sp jo kt h.spec hle hnf (by rw [e_cfg]; exact hF) hforb hT
+    syncJobTasks_force sp jo kt h.spec hle hnf (by rw [e_cfg]; exact hF) hforb hT (killTasks_fn hsp_cache hsp_pods)
   have hrj5lb := hlb5 F0 h.lbRefs hTlb hclk0
   obtain ⟨s', hsync, hto⟩ := sync_tail sp s6 jo kt rj5 (killTasks sp jo) h.spec hle h6 hk5 hs5 hfr6.clock hfr6.d hfr6.cfg (by
     intro fin hfin
